@@ -2,13 +2,23 @@
 
 Per case three things are compared: an independent oracle (int.to_bytes / struct / str.encode written here),
 the real library (cs.<type>(bytes), cs.<type>.dumps(v)), and the Lean model (driver `read`/`write`/`leb-*`/`resolve`).
+
+Section 6, the 'after a failed write' family (harness/v4_c05.py): "encoding is the exact inverse" holds for every encode, also
+for the one that follows an encode that was refused half way.  Seeded trials provoke dumps()/write()/instance.dumps() failures
+that raise after zero or more parts of the value were produced (arrays of fixed/arbitrary-width ints, LEB128, floats, wchar,
+enums with a later element that does not fit; generated structures - compiled or interpreted, aligned or packed, with arrays,
+a nested structure, bit-fields, enum and LEB128 members - whose later field does not fit; arrays of such structures; scalar
+rejections; short reads), catch the exception, optionally switch the endianness, and then re-verify the encodes of every scalar
+family (fixed ints, aliases, arbitrary-width ints, floats, char, wchar, LEB128, plus well-formed arrays and the structure)
+against the reference encodings, on the same instance, on an older instance and on a fresh one, through dumps(), instance
+dumps() and write() to a stream.  A violation of this family carries a self-contained script that `replay` re-executes.
 """
 from __future__ import annotations
 
 import io
 import struct
 
-from .. import common, impl
+from .. import common, impl, v4_c05
 from ..common import A, Case, Result, mkrng, parse_sexp, run_driver, sx
 
 INTS = {  # canonical name -> (size, signed)
@@ -107,7 +117,11 @@ def run(env) -> Result:
     res.rule = ("cases: every name of the built-in type table (resolution, size, alignment); every integer type x {<,>,!} x boundary values "
                 "(encode, decode, rejection of min-1/max+1) plus seeded random values, exhaustive for 1-byte types (quick) and 1/2-byte types "
                 "(thorough); floats by bit pattern; char/wchar; LEB128 up to 200-bit magnitudes incl. non-minimal and truncated encodings; "
-                "endianness switched after definitions were loaded and compiled. Each case: independent oracle vs real library vs Lean model. "
+                "endianness switched after definitions were loaded and compiled; after-fault trials: an encode that is refused after part of "
+                "the value was produced (arrays with a later element out of range, LEB128 arrays with a negative element, generated structures "
+                "- compiled/interpreted, aligned/packed - with an out-of-range later field, bit-field or nested member), exception caught, "
+                "then the encodes of every scalar family, of arrays and of the structure on the same / an older / a fresh instance via dumps, "
+                "instance.dumps and write must be exactly the reference encoding. Each case: independent oracle vs real library vs Lean model. "
                 "distinct = (type, endian, value/bytes); non-trivial = multi-byte or non-zero")
     R = Runner(env, res)
     rnd = mkrng(env["seed"], "c05")
@@ -325,6 +339,9 @@ def run(env) -> Result:
                                 {"definition": pre + defn, "data": data.hex(), "from": e0, "to": e1, "compiled": compiled})
                 del first
 
+    # ---- 6. after a refused encode the next encodes are the standard ones (same, older and fresh instance)
+    v4_c05.run(R, mkrng(env["seed"], "c05-after-fault"), tier)
+
     # ---- model correspondence
     answers = run_driver(R.lines) if env["driver_ok"] else [None] * len(R.lines)
     for meta, ans in zip(R.metas, answers):
@@ -355,4 +372,8 @@ def run(env) -> Result:
 
 def replay(body) -> int:
     print("replay:", body.get("what"), body.get("case"))
+    rc = v4_c05.replay_script(body)  # the after-fault cases carry the script of their trial
+    if rc is not None:
+        print("replay: the recorded script", "still fails" if rc else "no longer fails (the run is repeated with the recorded seed)")
+        return rc
     return 0
